@@ -23,7 +23,7 @@ def _model_check(ctx):
     base = {"W": str(W)}
     # the design with a signature that binds group and counter satisfies C01 for the whole forgery product
     if quick:
-        runs = [("mc_bound_shared", {"Shared": "TRUE", "SigCtx": "TRUE", "Plan": '"mini"', "MaxOpen": "2"}),
+        runs = [("mc_bound_shared", {"Shared": "TRUE", "SigCtx": "TRUE", "Plan": '"mini"', "MaxOpen": "1"}),
                 ("mc_bound_pergroup", {"Shared": "FALSE", "SigCtx": "TRUE", "Plan": '"mini"', "MaxOpen": "1"})]
     else:
         runs = [("mc_bound_shared", {"Shared": "TRUE", "SigCtx": "TRUE", "Plan": '"std"', "MaxOpen": "2"}),
@@ -124,8 +124,11 @@ def run(ctx, replay=None):
         runs, nid = [], 0
         for shared, scripts in groups.items():
             expanded = []
-            for sc in scripts:
-                for gt in GTYPES[shared]:
+            for j, sc in enumerate(scripts):
+                gts = GTYPES[shared]
+                if ctx.tier == "quick" and len(gts) > 1:   # quick tier: alternate instead of running both
+                    gts = [gts[(j + ctx.seed) % len(gts)]]
+                for gt in gts:
                     s2 = {"id": nid, "cfg": dict(sc["cfg"], gtype=gt), "steps": sc["steps"]}
                     nid += 1
                     expanded.append(s2)
